@@ -11,13 +11,15 @@ CONSTANTS NL, NN,      \* number of logins / names
           Ops,         \* step kinds enabled (a kind may be listed as "update1", "update2", "update3": batch length)
           SubKinds,    \* sub-operation kinds enabled in batches
           Thin,        \* TRUE: in batches longer than one, name and privileges are a function of position
+          Long,        \* TRUE: one more login, of 251 bytes (its account file name would exceed 255 bytes)
           Rand         \* TRUE (simulation only): one random step kind and one random step of that kind per state
 
 VARIABLES hist    \* the steps taken so far (the script)
 
 mcvars == <<vars, hist>>
 
-Logins == {<<96 + i>> : i \in 1..NL}
+LongLogin == [i \in 1..251 |-> 120]
+Logins == {<<96 + i>> : i \in 1..NL} \cup (IF Long THEN {LongLogin} ELSE {})
 Names == {<<78, 48 + i>> : i \in 1..NN}
 P == <<112>>  Q == <<113>>
 Absent == [has |-> FALSE, v |-> <<>>]
@@ -107,9 +109,17 @@ NoPw(m, l) == \A p \in ClearPws \cup {AdminLogin} : ~CanLoginIn(m, l, p)
 (* a new login can log in (with the password it was created with), nobody else changes *)
 NewCanLogin ==
   [][LET s == LastStep IN
-     (s.op = "newuser" /\ s.login \notin DOMAIN mem)
+     (s.op = "newuser" /\ s.login \notin DOMAIN mem /\ ~TooLong(s.login))
         => /\ CanLoginIn(mem', s.login, CreatePw(s.pw)) /\ mem'[s.login].name = s.name /\ mem'[s.login].acc = s.acc
            /\ Others(s.login)]_mcvars
+
+(* a login whose account file name would exceed the file-name limit cannot be created (answer: error) or renamed
+   to; the attempt leaves no trace / leaves the old account as it was *)
+OverlongLeavesNoTrace ==
+  [][LET s == LastStep IN
+     /\ (s.op = "newuser" /\ TooLong(s.login)) => (mem' = mem /\ out'.reply = "err")
+     /\ (s.op = "update" /\ Len(s.subs) = 1 /\ s.subs[1].k # "del" /\ TooLong(s.subs[1].login))
+           => (mem' = mem /\ out'.reply # "ok")]_mcvars
 
 (* a deleted login can no longer log in *)
 DeletedCannotLogin ==
